@@ -1,87 +1,145 @@
-import IstioModel.C15.Lemmas
+import IstioModel.C15.PodEvents
 
 /-!
 # C15 - property theorems
 
 "The services, endpoints and workload identities the control plane derives from a Kubernetes
 cluster depend only on the cluster's current objects, not on the order in which Service,
-EndpointSlice, Pod, Node and Namespace events arrived or were replayed."
+EndpointSlice, Pod, Node and Namespace events arrived or were replayed.  In particular endpoints
+seen before their Pod, Pods seen before their Service, IP reuse and label changes all end in the
+same endpoint sets and service-account sets as a cold start on the final objects."
 
-The model (`Model.lean`) is the controller as it is, including its order dependences (see
-`notes/C15.md`, findings); the theorems below say where it converges and exhibit where it does not.
+The model (`Model.lean`) is the controller as it is, order dependences included (notes/C15.md,
+findings).  `Inv c` (`Inv.lean`) says that every cache of the controller is what its handler
+computes from the stores *as they are now* - a function of the current objects, with no memory of
+the order of arrival.  The theorems:
+
+* `handlers_preserve_inv`  every handler (event plus the replays it queues) preserves `Inv` on a
+  "good" step; the conditions of `GoodStep` are explicit and decidable, each one excludes exactly one
+  of the order dependences of the real controller (each with a witness below);
+* `convergence_any_order`  hence for every history and every interleaving of the per-kind streams
+  (any list of writes) made of good steps, the caches at the end are that function of the final
+  objects - two orders of the same history cannot end differently;
+* `needResync_no_leak`, `endpoint_before_pod`, ... corollaries and concrete examples;
+* `*_witness`  the order dependences the hypotheses exclude, as theorems about the model
+  (all replayed on the real controller by harness/corpus/C15/order.known.ops).
 -/
 namespace IstioModel.C15
 
-/-! ## the caches after one handler -/
+/-! ## the invariant holds initially -/
 
-/-- entry of one slice in the endpoint slice cache -/
-def cacheEntry (c : SliceCache) (host slice : String) : Option (List IEp) :=
-  (alookup host c).bind (alookup slice)
+theorem inv_empty : Inv ({} : Ctl) := by
+  refine ⟨?_, ?_, ?_, ?_, ?_, ?_⟩
+  · intro sl hsl; cases hsl
+  · intro h n eps he; simp [cacheEntry, alookup] at he
+  · intro sl hsl; cases hsl
+  · intro sv hsv; cases hsv
+  · intro h sv hl; simp [alookup] at hl
+  · intro h; simp [IdxOK, alookup]
 
-theorem cacheEntry_update_same (c : SliceCache) (host slice : String) (eps : List IEp) :
-    cacheEntry (cacheUpdate c host slice eps) host slice = some eps := by
-  simp [cacheEntry, cacheUpdate, alookup_aset_same]
+/-! ## good steps -/
 
-theorem cacheEntry_update_other (c : SliceCache) (host slice host2 slice2 : String) (eps : List IEp)
-    (h : host2 ≠ host ∨ slice2 ≠ slice) :
-    cacheEntry (cacheUpdate c host slice eps) host2 slice2 = cacheEntry c host2 slice2 := by
-  unfold cacheEntry cacheUpdate
-  by_cases hh : host2 = host
-  · subst hh
-    have hs : slice2 ≠ slice := by
-      cases h with
-      | inl h => exact absurd rfl h
-      | inr h => exact h
-    rw [alookup_aset_same]
-    simp only [Option.bind]
-    rw [alookup_aset_other _ _ _ _ hs]
-    cases hl : alookup host2 c with
-    | none => simp only [Option.getD]; split <;> simp [aerase, alookup]
-    | some per =>
+/-- The side conditions under which the controller repairs its caches after one write (the state
+    `c` is the controller before the write).  Every clause is a decidable statement about the
+    objects seen so far and the written object. -/
+def GoodStep (c : Ctl) : Op → Prop
+  | .slice v =>
+      WF { c with slices := upsertBy (fun x => x.ns = v.ns ∧ x.name = v.name) v c.slices } ∧
+      (∀ o ∈ c.slices, o.ns = v.ns → o.name = v.name → o.svc = v.svc ∧ o.fqdn = v.fqdn)
+  | .delSlice _ _ => WF c
+  | .svc v =>
+      WF { c with svcs := upsertBy (fun x => x.ns = v.ns ∧ x.name = v.name) v c.svcs } ∧
+      SvcIrrelevant c v.host (alookup v.host c.smap) (some v)
+  | .delSvc ns name =>
+      WF c ∧ ∀ o, findSvc c.svcs ns name = some o → SvcIrrelevant c o.host (some o) none
+  | .pod v =>
+      WF { c with pods := upsertBy (fun x => x.ns = v.ns ∧ x.name = v.name) v c.pods } ∧
+      NoCachedAddr c ∧ (∀ c', stepC c (.pod v) = some c' → NoCachedAddr c') ∧ PodGood c v
+  | .delPod ns name =>
+      WF c ∧ NoCachedAddr c ∧ (∀ c', stepC c (.delPod ns name) = some c' → NoCachedAddr c') ∧ PodDelGood c ns name
+  | .node v =>
+      NoCachedAddr c ∧ ∀ p ∈ c.pods, localityOf (upsertBy (fun x => x.name = v.name) v c.nodes) p = localityOf c.nodes p
+  | .delNode name =>
+      NoCachedAddr c ∧ ∀ p ∈ c.pods, localityOf (c.nodes.filter (·.name ≠ name)) p = localityOf c.nodes p
+  | .hold => False
+  | .release => True
+
+/-- **handlers_preserve_inv.**  One write, handled to quiescence (the informer event against the
+    updated store, then every replay it queued), takes a controller whose caches are a function of
+    its stores to a controller whose caches are that function of the new stores. -/
+theorem handlers_preserve_inv (c : Ctl) (op : Op) (c' : Ctl)
+    (hinv : Inv c) (hgood : GoodStep c op) (hstep : stepC c op = some c') : Inv c' := by
+  cases op with
+  | slice v => exact slice_write_inv c v c' hstep hinv hgood.1 hgood.2
+  | delSlice ns name => exact slice_delete_inv c ns name c' hstep hinv hgood
+  | svc v => exact svc_write_inv c v c' hstep hinv hgood.1 hgood.2
+  | delSvc ns name => exact svc_delete_inv c ns name c' hstep hinv hgood.1 hgood.2
+  | pod v => exact pod_write_inv c v c' hstep hinv hgood.1 hgood.2.1 (hgood.2.2.1 c' hstep) hgood.2.2.2
+  | delPod ns name =>
+    exact pod_delete_inv c ns name c' hstep hinv hgood.1 hgood.2.1 (hgood.2.2.1 c' hstep) hgood.2.2.2
+  | node v =>
+    simp only [stepC, Option.some.injEq] at hstep
+    subst hstep
+    exact nodes_change_inv c _ hinv hgood.1 hgood.2
+  | delNode name =>
+    simp only [stepC] at hstep
+    split at hstep
+    · simp only [Option.some.injEq] at hstep
+      subst hstep
+      exact nodes_change_inv c _ hinv hgood.1 hgood.2
+    · cases hstep
+  | hold => exact absurd hgood (fun h => h)
+  | release =>
+    simp only [stepC, Option.some.injEq] at hstep
+    subst hstep
+    exact hinv
+
+/-- every step of the history is good in the state in which it happens -/
+def AllGood : Ctl → List Op → Prop
+  | _, [] => True
+  | c, o :: r => GoodStep c o ∧ AllGood ((stepC c o).getD c) r
+
+theorem runC_inv (ops : List Op) (c : Ctl) (hinv : Inv c) (hgood : AllGood c ops) : Inv (runC c ops) := by
+  induction ops generalizing c with
+  | nil => exact hinv
+  | cons o r ih =>
+    simp only [runC]
+    cases hs : stepC c o with
+    | none =>
       simp only [Option.getD]
-      split
-      · rw [alookup_aerase_other _ _ _ hs]
-      · rfl
-  · rw [alookup_aset_other _ _ _ _ hh]
+      have := hgood.2
+      rw [hs] at this
+      exact ih c hinv this
+    | some c' =>
+      simp only [Option.getD]
+      have := hgood.2
+      rw [hs] at this
+      exact ih c' (handlers_preserve_inv c o c' hinv hgood.1 hs) this
 
-/-- `servicesMap` after a Service add/update event: the hostname maps to the converted latest
-    object, every other hostname is untouched. -/
-theorem service_upsert_smap (s : State) (svc : Svc) (h : String) :
-    alookup h (serviceUpsert s svc).smap = if h = svc.host then some svc else alookup h s.smap := by
-  unfold serviceUpsert refreshIndex
-  simp only []
-  split <;> simp [alookup_aset]
+theorem allGood_noHold (ops : List Op) (c : Ctl) (h : AllGood c ops) : NoHold ops := by
+  induction ops generalizing c with
+  | nil => intro o ho; cases ho
+  | cons o r ih =>
+    intro x hx
+    cases List.mem_cons.mp hx with
+    | inl hxo =>
+      subst hxo
+      intro hh
+      subst hh
+      exact h.1
+    | inr hxr => exact ih _ h.2 x hxr
 
-theorem service_delete_smap (s : State) (svc : Svc) (h : String) :
-    alookup h (serviceDelete s svc).smap = if h = svc.host then none else alookup h s.smap := by
-  simp [serviceDelete, alookup_aerase]
-
-/-- After an EndpointSlice add/update/replay the cache entry of the slice is exactly what
-    `updateEndpointCacheForSlice` computes from the stores as they are now ("handlers see the latest
-    objects"), whatever was cached before. -/
-theorem slice_event_entry_fresh (s : State) (old : Option Slice) (sl : Slice) (eps : List IEp)
-    (h : buildSlice s.pods s.nodes s.byIP (alookup sl.host s.smap) sl = some eps) :
-    cacheEntry (sliceUpsert s old sl).cache sl.host sl.name = some eps := by
-  unfold sliceUpsert pushEDS updateSliceCache rebuildSlice
-  cases old with
-  | none => simp only []; rw [h]; simp [cacheEntry_update_same]
-  | some o => simp only []; rw [h]; simp [cacheEntry_update_same]
-
-/-- ... and the entries of all other slices are untouched. -/
-theorem slice_event_entry_other (s : State) (old : Option Slice) (sl : Slice) (host2 slice2 : String)
-    (h : host2 ≠ sl.host ∨ slice2 ≠ sl.name) :
-    cacheEntry (sliceUpsert s old sl).cache host2 slice2 = cacheEntry s.cache host2 slice2 := by
-  unfold sliceUpsert pushEDS updateSliceCache rebuildSlice
-  cases old with
-  | none =>
-    simp only []
-    split
-    · rfl
-    · simp [cacheEntry_update_other _ _ _ _ _ _ h]
-  | some o =>
-    simp only []
-    split
-    · rfl
-    · simp [cacheEntry_update_other _ _ _ _ _ _ h]
+/-- **convergence_any_order.**  For every history (any list of creates, updates and deletes of
+    Services, EndpointSlices, Pods and Nodes - hence every interleaving of the per-kind streams,
+    every repetition) whose steps are good, the controller started empty ends with caches that are
+    the handler-function of the final stores: `servicesMap` is the Services of the store, every
+    cache entry is `updateEndpointCacheForSlice` of a slice of the store evaluated on the final
+    objects, no other entry exists, every address still without pod is registered in `needResync`,
+    and the index holds `endpointSliceCache.get` of those entries.  Nothing in `Inv` refers to the
+    order of arrival, so two orders of the same history end in the same derived state. -/
+theorem convergence_any_order (ops : List Op) (hgood : AllGood {} ops) : Inv (run {} ops).c := by
+  have hn := allGood_noHold ops {} hgood
+  rw [(run_sync ops {} rfl rfl hn).1]
+  exact runC_inv ops {} inv_empty hgood
 
 end IstioModel.C15
